@@ -43,12 +43,31 @@ def run_ipm_tool(tool, data, a, b, fi, fo, wd, tag):
     open(path, 'wb').write(data)
     try:
         if tool == 'mci_ipm_encode.cli':
-            quiet(mci_ipm_encode.cli_run, in_filename=path, out_filename=path + '.o', in_encoding=a, out_encoding=b,
-                  in_format=fi, out_format=fo)
+            if fi == fo == 'vbs' and len(data) % 2:
+                # the --no1014blocking switch of the command overrides both format options
+                quiet(mci_ipm_encode.cli_run, in_filename=path, out_filename=path + '.o', in_encoding=a, out_encoding=b,
+                      in_format='1014', out_format='1014', no1014blocking=True)
+            else:
+                quiet(mci_ipm_encode.cli_run, in_filename=path, out_filename=path + '.o', in_encoding=a, out_encoding=b,
+                      in_format=fi, out_format=fo)
             return open(path + '.o', 'rb').read()
         # mideu convert: fixed pairs, same blocking in and out, writes <input>.out
-        rc = quiet(mideu.cli_run, func=mideu.convert, input=path, sourceformat='ebcdic' if a == 'cp500' else 'ascii',
-                   no1014blocking=(fi == 'vbs'))
+        kw = {}
+        if len(data) % 3 == 0:
+            # a site configuration file (documented way to switch PAN masking on for extraction) must not make the
+            # conversion lossy
+            import copy
+            import json
+            site = copy.deepcopy(dict(PKG))
+            site['bit_config']['2']['field_processor'] = 'PAN'
+            json.dump(site, open(path + '.json', 'w'))
+            kw['config_file'] = path + '.json'
+        try:
+            rc = quiet(mideu.cli_run, func=mideu.convert, input=path, sourceformat='ebcdic' if a == 'cp500' else 'ascii',
+                       no1014blocking=(fi == 'vbs'), **kw)
+        finally:
+            if os.path.exists(path + '.json'):
+                os.unlink(path + '.json')
         if rc == -1:
             raise RuntimeError('mideu convert reported an error')
         return open(path + '.out', 'rb').read()
